@@ -3,6 +3,7 @@ CONSTANTS
   MaxDepth = 1
   SampleSize = 0
   NegUnionFlipsEach = FALSE
+  NegNestedUnionFlips = FALSE
   FalsyObjs = {}
   OperandTruthFilter = FALSE
 SPECIFICATION Spec
